@@ -242,6 +242,117 @@ void explore_solved_sums(Ctx &ctx) {
             }
         }
     }
+    // results exactly one byte away from the encoding of the identity (01 00 .. 00): the "is the result the identity" tests look at all 32 bytes.
+    // The library's own validity test is used as a cheap pre-filter only; the expected results come from the model.
+    size_t nb = ctx.thorough() ? 255 : 64;
+    for (int j = 1; j < 32; j++) for (size_t bs = 0; bs < nb; bs++) {
+        uint64_t rs = r.next();
+        if (!ctx.mine(idx++)) continue;
+        Rng rr(rs);
+        int bv = ctx.thorough() ? (int) bs + 1 : 1 + (int) rr.below(255);
+        for (int sign = 0; sign < 2; sign++) {
+            Bytes enc(32, 0); enc[0] = 1; enc[(size_t) j] = (uint8_t) (j == 31 ? (bv & 0x7f) : bv); if (sign) enc[31] |= 0x80;
+            if (all_zero(Bytes(enc.begin() + 1, enc.end()))) continue;
+            if (crypto_core_ed25519_is_valid_point(enc.data()) != 1) { ctx.cls("identity-neighbour:filtered-out"); continue; }
+            Dec d = pt_decode_ex(enc);
+            if (!d.ok_strict() || !pt_in_prime_subgroup(d.p) || pt_is_identity(d.p)) { ctx.cls("identity-neighbour:not-prime-order"); continue; }
+            Bytes n = rr.bytes(32); n[31] &= 0x0f; n[0] |= 1;
+            Pt S = pt_mul(sc_inv(sc_reduce(u_from_le(n))), d.p);
+            EdCase m{ E_MULT_NOCLAMP, pt_encode(S), Bytes(), n, "solved-identity-neighbour", "", "solved" };
+            exec_case(ctx, m, run_ed, mix64(hash_bytes(enc.data(), 32), 31), true);
+            Bytes n2 = rr.bytes(32);
+            Pt S2 = pt_mul(sc_inv(sc_reduce(scalar_value(n2, true))), d.p);
+            EdCase m2{ E_MULT, pt_encode(S2), Bytes(), n2, "solved-identity-neighbour", "", "solved" };
+            exec_case(ctx, m2, run_ed, mix64(hash_bytes(enc.data(), 32), 32), true);
+            ctx.cls("solved-scalarmult:identity-neighbour");
+        }
+    }
+}
+
+// ------------------------------------------------------------------ scalar arithmetic with solved results
+// The result T is chosen first - one 21-bit limb (the representation of sc25519_*) all zeros / all ones / a single bit, next limb odd or even,
+// also 64-bit words - and the operands are solved for: mul(a, T/a), reduce(T + k*L), add / sub, and the multiply-add s = a*b + c mod L that
+// only signing uses (called through the library's internal entry point; skipped if the symbol does not exist).
+extern "C" void _sodium_sc25519_muladd(unsigned char *s, const unsigned char *a, const unsigned char *b, const unsigned char *c) __attribute__((weak));
+enum { SV_MUL, SV_REDUCE, SV_MULADD, SV_ADD, SV_SUB, SV_INVERT };
+const char *SVN[] = { "crypto_core_ed25519_scalar_mul", "crypto_core_ed25519_scalar_reduce", "sc25519_muladd (internal; S = h*a + r of Ed25519 signing)", "crypto_core_ed25519_scalar_add", "crypto_core_ed25519_scalar_sub", "crypto_core_ed25519_scalar_invert" };
+struct SvCase {
+    int op; Bytes a, b, c, want;
+    KV kv() const { KV k; k.s("kind", "scalar_solved").u("op", op).b("a", a).b("b", b).b("c", c).b("want", want); return k; }
+};
+uint64_t g_muladd_missing = 0;
+bool run_sv(const SvCase &c, std::string &msg) {
+    XBuf ab(c.a, 1), bb(c.b, 2), cb(c.c, 3), zb(32, 4);
+    switch (c.op) {
+    case SV_MUL: crypto_core_ed25519_scalar_mul(zb.p, ab.p, bb.p); break;
+    case SV_REDUCE: crypto_core_ed25519_scalar_reduce(zb.p, ab.p); break;
+    case SV_MULADD: if (!_sodium_sc25519_muladd) { g_muladd_missing++; return true; } _sodium_sc25519_muladd(zb.p, ab.p, bb.p, cb.p); break;
+    case SV_ADD: crypto_core_ed25519_scalar_add(zb.p, ab.p, bb.p); break;
+    case SV_SUB: crypto_core_ed25519_scalar_sub(zb.p, ab.p, bb.p); break;
+    default: if (crypto_core_ed25519_scalar_invert(zb.p, ab.p) != 0) { msg = "crypto_core_ed25519_scalar_invert failed on a non-zero scalar"; return false; } break;
+    }
+    if (zb.get() != c.want) { msg = std::string(SVN[c.op]) + " differs from integer arithmetic mod L on operands solved for a structured result: got " + hex(zb.get()) + " want " + hex(c.want) + " (a=" + hex(c.a) + " b=" + hex(c.b) + (c.c.empty() ? "" : " c=" + hex(c.c)) + ")"; return false; }
+    return true;
+}
+void explore_scalar_solved(Ctx &ctx) {
+    using namespace ref;
+    Rng r = ctx.rng("c07-scalar-solved");
+    U L = L25519();
+    uint64_t idx = 0;
+    int reps = ctx.thorough() ? 48 : 10;
+    auto target = [&](Rng &rr, int radix, int limb, int pat, int nextodd) {
+        int nl = (252 + radix - 1) / radix;
+        U t(0);
+        for (int i = 0; i < nl; i++) {
+            int width = std::min(radix, 252 - radix * i); if (width <= 0) break;
+            U v = u_low_bits(u_from_le(rr.bytes(8)), width);
+            if (i == limb) v = pat == 0 ? U(0) : pat == 1 ? u_sub(u_shl(U(1), width), U(1)) : pat == 2 ? U(1) : u_shl(U(1), width - 1);
+            if (i == limb + 1 && nextodd >= 0) { v = u_shl(u_low_bits(u_from_le(rr.bytes(8)), width - 1), 1); if (nextodd) v = u_add(v, U(1)); }
+            t = u_add(t, u_shl(v, radix * i));
+        }
+        if (u_cmp(t, L) >= 0) t = u_low_bits(t, 251);
+        return t;
+    };
+    for (int radix : { 21, 64, 32 }) {
+        int nl = (252 + radix - 1) / radix;
+        for (int limb = 0; limb < nl; limb++) for (int pat = 0; pat < 4; pat++) for (int rep = 0; rep < reps; rep++) {
+            uint64_t rs = r.next();
+            if (!ctx.mine(idx++)) continue;
+            Rng rr(rs);
+            U T = target(rr, radix, limb, pat, rep % 3 - 1);
+            Bytes want = u_to_le(T, 32);
+            uint64_t key = mix64(mix64(radix, limb), mix64(pat, rs));
+            U a = u_mod(u_from_le(rr.bytes(40)), L); if (u_is_zero(a)) a = U(1);
+            {   // mul: b = T / a; also with b + L (mul is specified for every byte string)
+                U b = u_mod(u_mul(T, u_invmod_prime(a, L)), L);
+                SvCase c{ SV_MUL, u_to_le(a, 32), u_to_le(rep % 2 ? u_add(b, L) : b, 32), Bytes(), want };
+                exec_case(ctx, c, run_sv, mix64(key, 1), true);
+            }
+            {   // reduce: T + k*L for a random k that fills the 64 bytes
+                U k = u_low_bits(u_from_le(rr.bytes(40)), rep % 4 == 0 ? 20 : 258);
+                SvCase c{ SV_REDUCE, u_to_le(u_add(T, u_mul(k, L)), 64), Bytes(), Bytes(), want };
+                exec_case(ctx, c, run_sv, mix64(key, 2), true);
+            }
+            {   // muladd as in signing: a reduced (the hash h), b a clamped secret scalar (not reduced), c reduced (the nonce r)
+                Bytes bb = rr.bytes(32); bb[0] &= 248; bb[31] &= 127; bb[31] |= 64;
+                U cv = u_submod(T, u_mod(u_mul(a, u_from_le(bb)), L), L);
+                SvCase c{ SV_MULADD, u_to_le(a, 32), bb, u_to_le(cv, 32), want };
+                exec_case(ctx, c, run_sv, mix64(key, 3), true);
+            }
+            {   // add / sub on reduced operands
+                SvCase c1{ SV_ADD, u_to_le(a, 32), u_to_le(u_submod(T, a, L), 32), Bytes(), want };
+                exec_case(ctx, c1, run_sv, mix64(key, 4), true);
+                SvCase c2{ SV_SUB, u_to_le(u_mod(u_add(T, a), L), 32), u_to_le(a, 32), Bytes(), want };
+                exec_case(ctx, c2, run_sv, mix64(key, 5), true);
+            }
+            if (!u_is_zero(T) && rep < 3) {   // invert: the operand is 1/T (sc25519_invert is a chain of mul / sq: costly in the model, sampled)
+                SvCase c{ SV_INVERT, u_to_le(u_invmod_prime(T, L), 32), Bytes(), Bytes(), want };
+                exec_case(ctx, c, run_sv, mix64(key, 6), true);
+            }
+            ctx.cls("scalar-solved:radix" + std::to_string(radix));
+        }
+    }
+    ctx.notes["muladd_cases_skipped_symbol_missing"] = std::to_string(g_muladd_missing);
 }
 
 // ------------------------------------------------------------------ Ristretto255
@@ -433,6 +544,7 @@ bool replay(const KV &k, std::string &msg) {
     std::string kind = k.gs("kind");
     if (kind == "ed") { EdCase c; c.op = 0; for (int i = 0; i < NEDOP; i++) if (k.gs("op") == EON[i]) c.op = i; c.p = k.gb("p"); c.q = k.gb("q"); c.n = k.gb("n"); return run_ed(c, msg); }
     if (kind == "ristretto") { RiCase c; c.op = 0; for (int i = 0; i < NRIOP; i++) if (k.gs("op") == RON[i]) c.op = i; c.p = k.gb("p"); c.q = k.gb("q"); c.n = k.gb("n"); c.pc = k.gs("pclass"); return run_ri(c, msg); }
+    if (kind == "scalar_solved") { SvCase c{ (int) k.gu("op"), k.gb("a"), k.gb("b"), k.gb("c"), k.gb("want") }; return run_sv(c, msg); }
     if (kind == "scalar") { ScCase c; c.op = 0; for (int i = 0; i < NSCOP; i++) if (k.gs("op") == SON[i]) c.op = i; c.ristretto = k.gu("ristretto"); c.x = k.gb("x"); c.y = k.gb("y"); return run_sc(c, msg); }
     HCase c; c.fn = (int) k.gu("fn"); c.hash = (int) k.gu("hash"); c.msg = k.gb("msg"); Bytes cb = k.gb("ctx"); c.ctx.assign(cb.begin(), cb.end()); c.null_ctx = k.gu("null_ctx"); c.null_msg = k.gu("null_msg"); c.tolerate_known = k.gu("tolerate_known");
     return run_h2c(c, msg);
@@ -441,5 +553,5 @@ bool replay(const KV &k, std::string &msg) {
 }  // namespace
 
 std::vector<Sub> vh_subs() {
-    return { { "ed_sweep", explore_ed_sweep, replay }, { "ed_points", explore_ed, replay }, { "ed_solved_results", explore_solved_sums, replay }, { "ristretto", explore_ri, replay }, { "scalars", explore_sc, replay }, { "h2c", explore_h2c, replay }, { "h2c_oversize_dst", explore_h2c_oversize, replay } };
+    return { { "ed_sweep", explore_ed_sweep, replay }, { "ed_points", explore_ed, replay }, { "ed_solved_results", explore_solved_sums, replay }, { "ristretto", explore_ri, replay }, { "scalars", explore_sc, replay }, { "scalar_solved_results", explore_scalar_solved, replay }, { "h2c", explore_h2c, replay }, { "h2c_oversize_dst", explore_h2c_oversize, replay } };
 }
